@@ -235,7 +235,26 @@ func (g *Gen) applyContractX(st *State, c *Contract, key string, names []string,
 		}
 		g.bumpClock(st)
 	}
-	res := g.declare(st, "ret:"+short, resTy)
+	var res Val
+	if c.Pure && !c.NonDet {
+		// a pure function is a function of its arguments (and of the heap cells they
+		// reach, passed as contents arrays for slices)
+		var flat []*Term
+		for i, a := range args {
+			var pt types.Type
+			if i < len(args) {
+				pt = a.Ty
+			}
+			if a.K == VAddr {
+				a = g.firstClass(a, "argument of pure function")
+			}
+			flat = append(flat, g.flattenArg(pre, a, pt)...)
+		}
+		res = buildVal(resTy, func(lf leaf) *Term { return App("vp_pure!"+short+lf.Path, lf.Sort, flat...) })
+		g.wfVal(st, res)
+	} else {
+		res = g.declare(st, "ret:"+short, resTy)
+	}
 	rn := resultNamesOf(sig, c)
 	if res.K == VTuple {
 		for i, n := range rn {
